@@ -174,26 +174,20 @@ def subterms(e, path=()):
     return out
 
 
-def replace_at(e, path, new):
+def replace_at(x, path, new):
+    """paths index uniformly into tuples and lists (case arms, call arguments)"""
     if not path:
         return new
     i = path[0]
-    child = e[i]
-    if isinstance(child, list):
-        j = path[1]
-        item = child[j]
-        if isinstance(item, tuple) and len(path) > 2 and isinstance(path[2], int) and e[0] in ("case",) :
-            pair = list(item)
-            pair[path[2]] = replace_at(pair[path[2]], path[3:], new)
-            newchild = child[:j] + [tuple(pair)] + child[j + 1:]
-        elif e[0] == "call" and i == 2:
-            pair = list(item)
-            pair[1] = replace_at(pair[1], path[3:], new)
-            newchild = child[:j] + [tuple(pair)] + child[j + 1:]
-        else:   # call positional
-            newchild = child[:j] + [replace_at(item, path[2:], new)] + child[j + 1:]
-        return e[:i] + (newchild,) + e[i + 1:]
-    return e[:i] + (replace_at(child, path[1:], new),) + e[i + 1:]
+    if isinstance(x, list):
+        return x[:i] + [replace_at(x[i], path[1:], new)] + x[i + 1:]
+    return x[:i] + (replace_at(x[i], path[1:], new),) + x[i + 1:]
+
+
+def node_at(x, path):
+    for i in path:
+        x = x[i]
+    return x
 
 
 def map_expr(e, fn):
@@ -291,7 +285,7 @@ class RStep:
     def coq(self):
         """Coq term (PV.Model.Rel transform) when the step is expressible in the abstract form, else None"""
         try:
-            if self.raw is not None:
+            if self.raw is not None or (self.coq_text is not None and self.info.get("orig_prql") == self.prql()):
                 return self.coq_text
             if self.kind == "filter" and is_plain(self.expr):
                 return "TFilter %s" % P.coq_expr(self.expr)
@@ -469,6 +463,7 @@ def from_program(pg):
         if rs is None:
             rs = RStep(st.kind, raw=st.prql)
         rs.coq_text = st.coq
+        info["orig_prql"] = st.prql
         rs.info, rs.before, rs.after = info, before, after
         steps.append(rs)
     # frames of steps prog.py added itself (final select)
@@ -490,10 +485,38 @@ def frame_at(rp, k):
 
 
 _QUAL = re.compile(r"\b(?:t|u)\.[A-Za-z_]")
+_FNAME = re.compile(r"\b((?:fn|tr)_\d+)\b")
 
 
-def uses_qualifier(steps):
-    return any(_QUAL.search(s.prql()) for s in steps)
+def all_decls(ds):
+    out = []
+    for d in ds:
+        if isinstance(d, Module):
+            out += all_decls(d.decls)
+        else:
+            out.append(d)
+    return out
+
+
+def uses_qualifier(steps, rp=None):
+    """does the text of these steps -- or the body of a user function they call -- mention t.x / u.x ?"""
+    texts = [s.prql() for s in steps]
+    if any(_QUAL.search(t) for t in texts):
+        return True
+    if rp is None:
+        return False
+    funcs = {d.name: d.prql() for d in all_decls(rp.decls) if isinstance(d, Func)}
+    todo = {m for t in texts for m in _FNAME.findall(t)}
+    seen = set()
+    while todo:
+        f = todo.pop()
+        if f in seen or f not in funcs:
+            continue
+        seen.add(f)
+        if _QUAL.search(funcs[f]):
+            return True
+        todo |= set(_FNAME.findall(funcs[f]))
+    return False
 
 
 # ------------------------------------------------------------------------------ (a) let / into
@@ -503,14 +526,12 @@ def sites_let(rp, rng, styles=("let", "into")):
     n = len(rp.steps)
     for k in range(0, n + 1):
         rest = rp.steps[k:]
-        if uses_qualifier(rest):
+        if uses_qualifier(rest, rp):
             continue        # `from r_1` renames the relation: qualified references to t / u would dangle
         fr = frame_at(rp, k)
         if fr is not None and len({c for _, c in fr}) != len(fr):
             continue        # a frame with duplicate names cannot be named (its CTE would have ambiguous columns)
         for style in styles:
-            if style == "into" and any(isinstance(d, Module) for d in rp.decls) and False:
-                continue
             q = rp.clone()
             name = q.new("r")
             q.decls.append(LetTable(name, q.head, q.steps[:k], style))
@@ -563,7 +584,8 @@ def sites_identity(rp, rng, kinds=("derive-empty", "filter-true", "select-all", 
             cands.append(("id-filter-true", RStep("filter", raw="filter true", coq="TFilter (ELit (VInt 1))", before=fr, after=fr)))
         if "take-open" in kinds:
             cands.append(("id-take-open", RStep("take", raw="take 1..", coq="TTake (Some 1) None", before=fr, after=fr, info={"rng": (1, 1 << 30)})))
-        if "select-all" in kinds and fr is not None and all(qq is None for qq, _ in fr) and len({c for _, c in fr}) == len(fr) and fr:
+        if "select-all" in kinds and fr is not None and all(qq is None for qq, _ in fr) and len({c for _, c in fr}) == len(fr) and fr \
+                and not uses_qualifier(rp.steps[k:], rp):      # after a select the reference semantics knows no qualifier (the compiler does)
             cands.append(("id-select-all", RStep("select", items=[(None, ("col", None, c)) for _, c in fr], before=fr, after=fr)))
         if "sort-before-sort" in kinds and k < n and rp.steps[k].kind == "sort" and fr:
             qq, c = rng.choice(fr)
@@ -604,8 +626,8 @@ def _abstract(rp, node, rng, variant):
     params, args, body = [], [], node
     for p in paths:
         pn = rp.new("pa")
-        arg = node if p == () else [n for pp, n in subterms(node) if pp == p][0]
-        body = replace_at(body, p, ("param", pn)) if p != () else ("param", pn)
+        arg = node_at(node, p)
+        body = replace_at(body, p, ("param", pn))
         params.append(pn)
         args.append(arg)
     fname = rp.new("fn")
@@ -619,6 +641,9 @@ def _abstract(rp, node, rng, variant):
             # that the body ignores is not a faithful "body is that expression" rewrite; fall back to named-pass
             variant = "named-pass"
         named_idx = rng.randrange(len(params))
+        lit_idx = [i for i, a in enumerate(args) if a[0] == "lit" and a[1] is not None]
+        if lit_idx and rng.random() < 0.7:
+            named_idx = rng.choice(lit_idx)
         if variant == "piped-named" and named_idx == len(params) - 1:
             named_idx = 0
         pn, arg = params[named_idx], args[named_idx]
@@ -667,6 +692,15 @@ def sites_func(rp, rng, variants=FUNC_VARIANTS, per_slot=None):
     out = []
     for i, s in enumerate(rp.steps):
         for sid, e in s.slots():
+            if s.kind == "select" and s.items[sid[1]][0] is None:
+                # `select {a, ..}` -> `select {a = (f a), ..}` puts the alias `a` in scope of the LATER items of the tuple
+                # (PRQL resolves tuple items left to right): not the same program when one of them mentions `a`
+                nm = e[2]
+                if any(not (later[0] == "col" and later[2] != nm) for _, later in s.items[sid[1] + 1:]):
+                    continue        # (a later call could mention `a` through a default value: only plain other columns may follow)
+                # the aliased column no longer belongs to relation t / u: later `t.a` would dangle
+                if uses_qualifier(rp.steps[i + 1:], rp):
+                    continue
             vs = list(variants)
             if per_slot is not None:
                 rng.shuffle(vs)
@@ -691,7 +725,7 @@ def sites_func(rp, rng, variants=FUNC_VARIANTS, per_slot=None):
     return out
 
 
-TRFUNC_VARIANTS = ["pos", "named-omit", "named-pass", "module", "norel"]
+TRFUNC_VARIANTS = ["pos", "zero", "named-omit", "named-pass", "module"]
 
 
 def sites_trfunc(rp, rng, variants=TRFUNC_VARIANTS, maxlen=3, per_site=None, pointfree=False):
@@ -704,13 +738,11 @@ def sites_trfunc(rp, rng, variants=TRFUNC_VARIANTS, maxlen=3, per_site=None, poi
             run = rp.steps[i:j]
             if any(s.kind in ("call",) for s in run):
                 continue
-            if i > 0 and uses_qualifier(run) and rp.head != "t":
-                continue
             lits = []
             for si, s in enumerate(run):
                 for sid, e in s.slots():
                     for p, nd in subterms(e):
-                        if nd[0] == "lit" and nd[1] is not None and not (len(p) >= 3 and p[-1] == 0 and nd == ("lit", 1) and False):
+                        if nd[0] == "lit" and nd[1] is not None:
                             lits.append((si, sid, p, nd))
             vs = list(variants) + (["pointfree"] if pointfree else [])
             if per_site is not None:
@@ -721,7 +753,7 @@ def sites_trfunc(rp, rng, variants=TRFUNC_VARIANTS, maxlen=3, per_site=None, poi
                 body = q.steps[i:j]
                 fname = q.new("tr")
                 params, named, pos = [], [], []
-                if lits and v != "norel0":
+                if lits and v != "zero":
                     si, sid, p, nd = rng.choice(lits)
                     pn = q.new("pa")
                     e = dict(body[si].slots())[sid]
@@ -908,13 +940,15 @@ def two_ref_pairs(pg, rng):
     """pg: prog.Program with final select (frame = pg.final_cols, unqualified, distinct names).
     Returns [(label, base prql, rewritten RProg, coq expression template, ordered, final_cols)].  The base
     spells the prefix out twice; the rewritten form names it once and refers to it twice.  The Coq template
-    mentions TQ (table t, qualified), T0 (table t, unqualified), U0 (table u)."""
+    mentions TQ_BASE (table t as `from t` sees it) and prog.py's own placeholders (T_TABLE, U_TABLE, ...), to be
+    filled in the way vplib/rel/run.model_expr does."""
     rp = from_program(pg)
     cols = list(pg.final_cols)
     if not cols or len(set(cols)) != len(cols):
         return []
-    pre_txt = " | ".join(["from t"] + [s.prql() for s in rp.steps])
-    pcoq = pg.coq().replace("U_TABLE", "U0").replace("T_TABLE", "T0")
+    pre_lines = ["from t"] + [s.prql() for s in rp.steps]
+    pre_txt = " | ".join(pre_lines)
+    pcoq = pg.coq()
     out = []
     k = cols[0]
     # --- append: from P | append P | rest
@@ -927,14 +961,14 @@ def two_ref_pairs(pg, rng):
     rests.append((["group {%s} (aggregate {n_all = count this})" % k],
                   ["TGroupAgg [%d%%N] [(Some %d%%N, ACount, ELit (VInt 1))]" % (P.nid(k), P.nid("n_all"))], [k, "n_all"]))
     rtxt, rcoq, fcols = rng.choice(rests)
-    base = "\n".join([pre_txt.replace(" | ", "\n"), "append (%s)" % pre_txt] + rtxt)
+    base = "\n".join(pre_lines + ["append (%s)" % pre_txt] + rtxt)
     q = from_program(pg)
     name = q.new("r")
     q.decls.append(LetTable(name, "t", q.steps, "let"))
     q.head = name
     q.steps = [RStep("append_ref", ref=name)] + [RStep("raw", raw=t) for t in rtxt]
     q.trace = ["let2-append"]
-    coq = "(let x := run TQ %s in run x ([TAppend x] ++ [%s]))" % (pcoq, "; ".join(rcoq))
+    coq = "(let x := run TQ_BASE %s in run x ([TAppend x] ++ [%s]))" % (pcoq, "; ".join(rcoq))
     out.append(("let2-append", base, q, coq, False, fcols))
     # --- self join: from P | derive {lk = k} | join y = P (lk == y.k) | select {lk, y.c...}
     lk = "lk_1"
@@ -946,7 +980,7 @@ def two_ref_pairs(pg, rng):
     sel_items = [(None, ("col", None, lk))] + [("y_" + c, ("col", "y", c)) for c in [k] + others]
     jtxt = "join %sy = (%s) (%s)" % ("side:left " if side == "LeftJ" else "", pre_txt, show_expr(on))
     seltxt = "select {%s}" % ", ".join(show_expr(e) if n is None else "%s = %s" % (n, show_expr(e)) for n, e in sel_items)
-    base = "\n".join([pre_txt.replace(" | ", "\n"), "derive {%s = %s}" % (lk, k), jtxt, seltxt])
+    base = "\n".join(pre_lines + ["derive {%s = %s}" % (lk, k), jtxt, seltxt])
     q = from_program(pg)
     name = q.new("r")
     q.decls.append(LetTable(name, "t", q.steps, "let"))
@@ -956,7 +990,7 @@ def two_ref_pairs(pg, rng):
                RStep("raw", raw=seltxt)]
     q.trace = ["let2-selfjoin"]
     selc = "; ".join("(%s, %s)" % ("None" if n is None else "Some %d%%N" % P.nid(n), P.coq_expr(e)) for n, e in sel_items)
-    coq = ("(let x := run TQ %s in run x [TDerive [(Some %d%%N, ECol None %d%%N)]; TJoin %s %d%%N %s x %s; TSelect [%s]])"
+    coq = ("(let x := run TQ_BASE %s in run x [TDerive [(Some %d%%N, ECol None %d%%N)]; TJoin %s %d%%N %s x %s; TSelect [%s]])"
            % (pcoq, P.nid(lk), P.nid(k), side, P.nid("y"), P.coq_names(cols), P.coq_expr(on), selc))
     out.append(("let2-selfjoin", base, q, coq, False, [lk] + ["y_" + c for c in [k] + others]))
     return out
